@@ -141,6 +141,8 @@ type FnCtx struct {
 	cur          *ssa.BasicBlock
 	curIdx       int
 	preserve     []string
+	partial      bool // generation stopped at a clause that does not bind
+	skippedAts   []string
 	preCallHeap  *Heap
 	preCallGhost map[string]string
 	retReach     []string
